@@ -73,7 +73,17 @@ func init() {
 			Opt:      vrt.Options{HorizonNs: int64(600 * time.Second), Delay: c.P("delay", "0") == "1"},
 			Classify: deadlockIs("work-conserving: a sender never finished"),
 			Main: func() {
-				valve := &recValve{LimitedValve: MakeValve(rate, rate)}
+				// the two directions get different rates: the other one is four times as fast, so a valve that
+				// feeds a direction from the wrong bucket shows in the envelope or in the finishing time
+				rxRate, txRate := rate, rate
+				if c.P("asym", "0") == "1" {
+					if dir == "rx" {
+						txRate = 4 * rate
+					} else {
+						rxRate = 4 * rate
+					}
+				}
+				valve := &recValve{LimitedValve: MakeValve(rxRate, txRate)}
 				net := vnet.New()
 				var wg sync.WaitGroup
 				var finish int64
@@ -194,6 +204,7 @@ func init() {
 		for _, dir := range []string{"tx", "rx"} {
 			// messages larger than one second's allowance: the long-run rate must still hold
 			jobs = append(jobs, vx.Job{Scenario: "mux.rate", Params: vx.P("dir", dir, "senders", "1", "count", "4", "size", "3000", "rate", "1000"), Bound: b(1, 2), Weight: 5})
+			jobs = append(jobs, vx.Job{Scenario: "mux.rate", Params: vx.P("dir", dir, "senders", "2", "count", "3", "size", "300", "rate", "1000", "asym", "1"), Bound: b(1, 2), Weight: 6})
 			jobs = append(jobs, vx.Job{Scenario: "mux.rate", Params: vx.P("dir", dir, "senders", "2", "count", "2", "size", "16000", "rate", "4000", "delay", "1"), Bound: b(1, 2), Weight: 6})
 		}
 		jobs = append(jobs, vx.Job{Scenario: "panel.valve", Weight: 1})
@@ -203,4 +214,13 @@ func init() {
 		}
 		return jobs
 	})
+}
+
+// VerifValveRates exposes a limited valve's bucket parameters to the server-side harness.
+func VerifValveRates(v Valve) (rxRate, txRate float64, rxCap, txCap int64, ok bool) {
+	lv, is := v.(*LimitedValve)
+	if !is {
+		return 0, 0, 0, 0, false
+	}
+	return lv.rxtb.Rate(), lv.txtb.Rate(), lv.rxtb.Capacity(), lv.txtb.Capacity(), true
 }
